@@ -29,6 +29,10 @@ import (
 	vs "verif.local/kit/stat"
 )
 
+// Known finding class (notes/C17.md): stateSet.revertTo stores empty non-nil blobs for
+// entries that did not exist before; fastIterator filters tombstones with != nil.
+const c17KnownEmptyBlob = "empty-blob-after-buffer-revert"
+
 type c17Step struct {
 	ops    []pdbOp
 	seq    uint64
@@ -43,6 +47,7 @@ type c17Plan struct {
 	maxLayers int
 	cfg       Config
 	sideRoot  common.Hash // a root the world knows but the database never saw
+	excluded  int         // iterator entries tolerated because of the listed known finding
 }
 
 type c17Inst struct {
@@ -264,6 +269,89 @@ func (in *c17Inst) verifyPersistent(id int, when string) {
 	}
 	if d := pdbVerifyReads(in.db, in.p.w, root); d != "" {
 		in.fail("%s: %s", when, d)
+	}
+	in.verifyIterators(root, when)
+}
+
+// verifyIterators walks the flat state at the disk root with the merged (fast) and
+// the binary iterators, accounts and the storage of every pool account: exactly the
+// model's entries, ascending, with the model's (non-empty) values. After a rollback
+// that stays inside the write buffer the buffer holds the reverted entries, including
+// "did not exist before" markers; none of them may surface as an entry.
+func (in *c17Inst) verifyIterators(root common.Hash, when string) {
+	st := in.p.w.State(root)
+	dl := in.db.tree.bottom()
+	type entry struct {
+		h common.Hash
+		v []byte
+	}
+	drain := func(it Iterator, val func() []byte, what string) []entry {
+		var out []entry
+		for it.Next() {
+			out = append(out, entry{it.Hash(), common.CopyBytes(val())})
+			if len(out) > 1000 {
+				in.fail("%s: %s does not terminate", when, what)
+			}
+		}
+		if err := it.Error(); err != nil {
+			in.fail("%s: %s failed: %v", when, what, err)
+		}
+		it.Release()
+		return out
+	}
+	// Known finding (only when listed): after a rollback inside the write buffer the merged
+	// (fast) iterators surface the "did not exist before" markers of the reverted transition
+	// as entries with an empty value. Exactly those are dropped before the comparison.
+	tolerate := func(got []entry, val func(common.Hash) []byte) []entry {
+		if !vs.Known("TestVerifC17Rollback", c17KnownEmptyBlob) || dl.buffer.empty() {
+			return got
+		}
+		var out []entry
+		for _, e := range got {
+			if len(e.v) == 0 && len(val(e.h)) == 0 {
+				in.p.excluded++
+				continue
+			}
+			out = append(out, e)
+		}
+		return out
+	}
+	compare := func(got []entry, keys []common.Hash, val func(common.Hash) []byte, what string) {
+		var render []string
+		for _, e := range got {
+			render = append(render, fmt.Sprintf("%x=%x", e.h[:4], e.v))
+		}
+		if len(got) != len(keys) {
+			in.fail("%s: %s yields %d entries %v, the model state has %d", when, what, len(got), render, len(keys))
+		}
+		for i, e := range got {
+			if e.h != keys[i] || !bytes.Equal(e.v, val(keys[i])) || len(e.v) == 0 {
+				in.fail("%s: %s entry %d is %x=%x, model %x=%x (all: %v)", when, what, i, e.h, e.v, keys[i], val(keys[i]), render)
+			}
+		}
+	}
+	accounts := st.SortedAccounts()
+	fast, err := in.db.AccountIterator(root, common.Hash{})
+	if err != nil {
+		in.fail("%s: AccountIterator(%x): %v", when, root, err)
+	}
+	compare(tolerate(drain(fast, fast.Account, "fast account iterator"), st.AccountBlob), accounts, st.AccountBlob, "fast account iterator")
+	bin := dl.newBinaryAccountIterator(common.Hash{})
+	compare(drain(bin, bin.Account, "binary account iterator"), accounts, st.AccountBlob, "binary account iterator")
+	owners := []common.Hash{pdbAbsentAccount.Hash}
+	for _, a := range pdbAddrs {
+		owners = append(owners, a.Hash)
+	}
+	for _, owner := range owners {
+		slots := st.SortedSlots(owner)
+		val := func(h common.Hash) []byte { return st.SlotBlob(owner, h) }
+		sfast, err := in.db.StorageIterator(root, owner, common.Hash{})
+		if err != nil {
+			in.fail("%s: StorageIterator(%x, %x): %v", when, root, owner, err)
+		}
+		compare(tolerate(drain(sfast, sfast.Slot, "fast storage iterator"), val), slots, val, fmt.Sprintf("fast storage iterator of %x", owner[:4]))
+		sbin := dl.newBinaryStorageIterator(owner, common.Hash{})
+		compare(drain(sbin, sbin.Slot, "binary storage iterator"), slots, val, fmt.Sprintf("binary storage iterator of %x", owner[:4]))
 	}
 }
 
@@ -499,6 +587,10 @@ func TestVerifC17Rollback(t *testing.T) {
 		}
 
 		nt := crossed || destructReverted
+		if p.excluded > 0 {
+			st.Excluded()
+			c.Class("known-empty-blob-entries-dropped")
+		}
 		c.NonTrivial(nt, fmt.Sprintf("%d/%d/%d/%v/%x", p.maxLayers, p.cfg.WriteBufferSize, p.cfg.StateHistory, targets, p.roots[n]))
 		c.Classf("history=%d", p.cfg.StateHistory)
 		c.Classf("buffer=%d", p.cfg.WriteBufferSize)
